@@ -72,7 +72,7 @@ def eval_expression(expr: str, context: dict) -> Any:
     # We search for all expressions in strings within curly brackets and evaluate them first
     # Find first all strings
     string_pattern = (
-        r'("""|\'\'\')((?:\\\1|(?!\1)[\s\S])*?)\1|("|\')((?:\\\3|(?!\3).)*?)\3'
+        r'("""|\'\'\')((?:\\[\s\S]|(?!\1)[\s\S])*?)\1|("|\')((?:\\.|(?!\3).)*?)\3'
     )
     string_expressions_matches = re.findall(string_pattern, expr)
     string_expression_values = []
